@@ -52,6 +52,21 @@ def stmts_in_order(block):
     return out
 
 
+def stmts_in_order_flat(block):
+    """like stmts_in_order, with `let x = { s1; ..; v };` (an inlined helper's body) read as `s1; ..; let x = v;`"""
+    out = []
+    for s in stmts_in_order(block):
+        if s['k'] == 'Let' and s.get('init') is not None and s.get('else') is None:
+            b = s['init']
+            while b['k'] in ('Use', 'NeverToAny'): b = b['source']
+            if b['k'] == 'Block' and b['stmts'] and b.get('expr') is not None and not any(x['k'] in ('Return', 'Break', 'Continue') for x in walk(b)):
+                out.extend(stmts_in_order_flat({'k': 'Block', 'stmts': b['stmts'], 'expr': None}))
+                s2 = dict(s); s2['init'] = b['expr']
+                out.append(s2)
+                continue
+        out.append(s)
+    return out
+
 def sorts_ascending_by_id(call, crate):
     """is this call a sort of a sequence of NamedSymbol ascending by `id`?  sort_by(|a, b| a.id.cmp(&b.id)) in its stable/unstable
     forms, or sort_by_key(|v| v.id) in its stable/unstable/cached forms"""
@@ -75,6 +90,29 @@ def sorts_ascending_by_id(call, crate):
         b = strip(b)
         return b['k'] == 'Field' and b.get('field_name') == 'id' and root_var(b['lhs']) == pn[0]
     return False
+
+def is_stdout_write(x):
+    """println!/print!, or write!/writeln! on a standard-output handle (`io::stdout()`, a `StdoutLock` passed down)"""
+    if x.get('k') != 'Call': return False
+    if callee_name(x) == 'std::io::_print': return True
+    if callee_decl(x) == 'std::io::Write::write_fmt' and x['args']:
+        a = x['args'][0]
+        while True:
+            ts = str((a.get('ty') or {}).get('s'))
+            if 'std::io::Stdout' in ts: return True
+            if a['k'] in ('Borrow', 'Deref', 'Use'): a = a.get('arg') or a.get('source'); continue
+            return False
+    return False
+
+def role_index(t, role):
+    """position of a printer's parameter by what it holds, not by where it stands: 'root' the diagram (`&Rc<BDD<..>>`), 'values' the partial
+    assignment (`Vec<TruthTableEntry>`); a parameter added in front (an output handle passed down) does not move the roles"""
+    import re as _re
+    want = {'root': r'Rc<rsbdd::bdd::BDD<', 'values': r'(Vec<|\[)[\w:]*TruthTableEntry'}[role]
+    for i, p in enumerate(t['params']):
+        ts = str((p.get('ty') or {}).get('s'))
+        if _re.search(want, ts): return i
+    return {'root': 0, 'values': 1}[role]
 
 _GAB = {}
 def guards_as_branches(t):
@@ -101,12 +139,16 @@ def rule_X1_printers(F, R):
                 if not (p['k'] == 'Variant' and canon(p['adt']) == BDD and p['variant'] == 'Choice'): continue
                 assigned = {}      # vec var -> last assigned TTE variant
                 alias = {}
-                for s in stmts_in_order(arm['body']):
+                for s in stmts_in_order_flat(arm['body']):
                     if s['k'] == 'Let':
                         q = unwrap_pat(s['pat'])
                         if q['k'] == 'Binding' and s['init'] is not None:
                             rv = root_var(s['init'])
                             if rv: alias[q['var']] = rv
+                            # `let r_vals = bound;` hands the vector on with what was recorded in it so far
+                            i0_ = strip(s['init'])
+                            if rv and i0_['k'] in ('VarRef', 'UpvarRef') and rv in assigned: assigned[q['var']] = assigned[rv]
+                            elif q['var'] in assigned: del assigned[q['var']]
                         continue
                     e = s['expr']
                     if e['k'] == 'Assign':
@@ -119,8 +161,8 @@ def rule_X1_printers(F, R):
                     for c in walk(e):
                         if c['k'] == 'Call' and callee_name(c) == fn:
                             n += 1
-                            child = cb.get(root_var(c['args'][0]))
-                            vec = root_var(c['args'][1])
+                            child = cb.get(root_var(c['args'][role_index(t, 'root')]))
+                            vec = root_var(c['args'][role_index(t, 'values')])
                             val = assigned.get(vec)
                             want = {0: 'True', 2: 'False'}.get(child)
                             ok = want is not None and val == want
@@ -442,7 +484,7 @@ def _x2_table(F, R, binc, FILTERS):
             if m['k'] == 'Match' and m['arms'] and unwrap_pat(m['arms'][0]['pat'])['k'] == 'Variant' and unwrap_pat(m['arms'][0]['pat']).get('variant') == 'Choice':
                 for a in m['arms']:
                     p = unwrap_pat(a['pat'])
-                    if any(x['k'] == 'Call' and callee_name(x) == 'std::io::_print' for x in walk(a['body'])):
+                    if any(is_stdout_write(x) for x in walk(a['body'])):
                         printing.append(p.get('variant') if p['k'] == 'Variant' else pp_pat(a['pat']))
         ok = printing == ['True']
         # ... once per satisfying row, whatever the row holds: the line is written unconditionally in the True arm (a row in which
@@ -458,9 +500,17 @@ def _x2_table(F, R, binc, FILTERS):
                 hit = []
                 def rec(x, under):
                     if not isinstance(x, dict): return
-                    if x.get('k') == 'Call' and callee_name(x) == 'std::io::_print' and under: hit.append(x)
+                    if is_stdout_write(x) and under: hit.append(x)
                     u2 = under or (x.get('k') in ('If', 'Loop') or (x.get('k') == 'Match' and 'TryDesugar' not in str(x.get('source'))))
                     from facts import children
+                    if x.get('k') == 'If':
+                        # the test itself runs whenever the `if` is reached (`if let Err(e) = writeln!(out, ..) { panic!(..) }`)
+                        rec(x['cond'], under)
+                        rec(x['then'], True)
+                        if x.get('else') is not None: rec(x['else'], True)
+                        return
+                    if x.get('k') == 'Let':
+                        rec(x['expr'], under); return
                     for ch in children(x): rec(ch, u2)
                 rec(e, under)
                 return hit
@@ -808,7 +858,13 @@ def rule_X3(F, R):
             if e['k'] in ('VarRef', 'UpvarRef'): return vd.get(e['var'])
             if e['k'] == 'Call':
                 d = callee_decl(e) or ''; c = callee_name(e) or ''
-                if d in ('std::ops::Deref::deref', 'std::clone::Clone::clone') or c in ('core::slice::<impl [T]>::iter',): return seq_dom(e['args'][0])
+                if d in ('std::ops::Deref::deref', 'std::clone::Clone::clone', 'std::borrow::ToOwned::to_owned') or c in ('core::slice::<impl [T]>::iter', 'std::slice::<impl [T]>::to_vec', 'std::vec::Vec::as_slice', 'std::vec::Vec::as_mut_slice'): return seq_dom(e['args'][0])
+                # iterators over a sequence of known length: as long as the sequence, `chain(.., once(x))` one longer
+                if d in ('std::iter::Iterator::map', 'std::iter::Iterator::cloned', 'std::iter::Iterator::copied', 'std::iter::IntoIterator::into_iter', 'std::iter::Iterator::by_ref') and e['args']:
+                    return seq_dom(e['args'][0])
+                if d == 'std::iter::Iterator::chain' and len(e['args']) == 2:
+                    a = seq_dom(e['args'][0]); b = strip(e['args'][1])
+                    if a is not None and b['k'] == 'Call' and (callee_name(b) or '').split('::')[-1] == 'once' and (callee_name(b) or '').startswith(('std::iter::', 'core::iter::')): return a + 1
             return None
         # let-aliases (flow-insensitive is enough: vectors are only cloned/moved)
         changed = True
@@ -1119,6 +1175,10 @@ def rule_X4(F, R, clauses=('parse', 'order', 'model', 'retain', 'export', 'vars'
                 n = callee_name(e)
                 if n in NAMES:
                     return ('eval',) if NAMES[n] == 'eval' else (NAMES[n], tv(e['args'][1], val))
+                if n in ('std::option::Option::unwrap_or_default', 'std::option::Option::unwrap', 'std::option::Option::expect', 'std::option::Option::unwrap_or',
+                         'std::option::Option::unwrap_or_else') and e['args']:
+                    inner = tv(e['args'][0], val)          # the latest result kept in an Option (`last = Some(r)` in the loop, resolved after it)
+                    return inner[1] if inner[0] == 'some' else ('opaque', pp(e)[:60])
                 if root_var(e) is not None and e['args']: return tv(e['args'][0], val)          # clone / as_ref / deref of a value
             if e['k'] == 'If' and e.get('else') is not None:
                 return ite(condkey(e['cond']), tv(e['then'], val), tv(e['else'], val))
@@ -1130,6 +1190,7 @@ def rule_X4(F, R, clauses=('parse', 'order', 'model', 'retain', 'export', 'vars'
                 sc = strip(e['scrutinee'])
                 if sc['k'] == 'Call' and sc['args']: return tv(sc['args'][0], val)
             if e['k'] == 'Adt' and canon(e['adt']) == 'std::result::Result' and e['variant'] == 'Ok' and e['fields']: return tv(e['fields'][0]['expr'], val)
+            if e['k'] == 'Adt' and canon(e['adt']) == 'std::option::Option' and e['variant'] == 'Some' and e['fields']: return ('some', tv(e['fields'][0]['expr'], val))
             return ('opaque', pp(e)[:60])
         def bindpat(pat, v_, val):
             q = unwrap_pat(pat)
@@ -1211,7 +1272,8 @@ def rule_X4(F, R, clauses=('parse', 'order', 'model', 'retain', 'export', 'vars'
         def note(e, val):
             for x in walk(e):
                 if x['k'] == 'Call' and callee_name(x) in PRINTERS:
-                    shown.append((PRINTERS[callee_name(x)], x, tv(x['args'][0], val)))
+                    pt_ = binc.ithir.get(callee_name(x))
+                    shown.append((PRINTERS[callee_name(x)], x, tv(x['args'][role_index(pt_, 'root') if pt_ is not None else 0], val)))
         def run(stmts_, val):
             for s_ in stmts_:
                 if s_['k'] == 'Let':
@@ -2285,6 +2347,11 @@ def row_text(binc, t, k):
         if e['k'] == 'Call':
             cn = (callee_name(e) or '').split('::')[-1]
             if cn == 'enumerate': return [('pair', None, x) for x in ev_list(e['args'][0], env)]
+            if cn == 'chain' and len(e['args']) == 2: return ev_list(e['args'][0], env) + ev_list(e['args'][1], env)
+            if cn == 'once' and len(e['args']) == 1 and (callee_name(e) or '').startswith(('std::iter::once', 'core::iter::once', 'std::iter::sources::once')): return [ev_str(e['args'][0], env)]
+            if cn == 'map' and len(e['args']) == 2 and peel(e['args'][1])['k'] == 'ZstLiteral' and 'fn' in peel(e['args'][1]) and \
+                    canon(peel(e['args'][1])['fn'].get('def') or '').split('::')[-1] in TRANSP:
+                return ev_list(e['args'][0], env)           # .map(ToString::to_string): the same pieces
             if cn == 'zip': return [('pair', x, None) for x in ev_list(e['args'][0], env)]
             if cn == 'map' and len(e['args']) == 2:
                 cl = peel(e['args'][1])
@@ -2657,7 +2724,7 @@ def rule_X9(F, R):
         base = name.split('::{closure')[0]
         if '<Args as clap::' in base: continue
         for e in walk(t['body']):
-            if e['k'] == 'Call' and callee_name(e) == 'std::io::_print':
+            if is_stdout_write(e):
                 n += 1
                 roots = _facts.baseline_roots(binc, base) if base not in _facts.baseline_fns() else {base}
                 ok = bool(roots) and roots <= ALLOWED
@@ -2668,12 +2735,12 @@ def rule_X9(F, R):
     m = binc.ithir.get('rsbdd::main')
     if m is not None:
         for e in walk(m['body']):
-            if e['k'] == 'Call' and callee_name(e) == 'std::io::_print':
+            if is_stdout_write(e):
                 # must sit under the export_ordering flag
                 pass
         import flow
         fl = flow.Flow(binc); found = []
-        flow.scan(fl, m['body'], {}, lambda x: x.get('k') == 'Call' and callee_name(x) == 'std::io::_print', found)
+        flow.scan(fl, m['body'], {}, lambda x: is_stdout_write(x), found)
         for node, env in found:
             ok = any(pol and c == ('field', ('args',), 'export_ordering') for c, pol in env.get('#conds', ()))
             R.obligation(ok, 'X9 main print')
